@@ -26,6 +26,9 @@ type Node struct {
 type WriterPlan struct {
 	FailAt int    `json:"fail_at,omitempty"` // 1-based Write call that fails; 0 = never
 	Kind   string `json:"kind,omitempty"`    // "err" | "short"
+	// Reenter: during its first Write call, before consuming the bytes, the writer causes an
+	// unrelated File to be rendered on the same goroutine.
+	Reenter bool `json:"reenter,omitempty"`
 }
 
 // FSPlan describes the filesystem situation for one Save.
